@@ -64,7 +64,7 @@ def routine_internals(ctx, rule='C04-R3'):
     f = p.func(CBH, rule)
     ctx.saw(f)
     vals, lb, hp = (('p', x) for x in f.params[:3])
-    evs = fx.own_events(CBH)
+    evs = fx.deep_events(CBH)
     pct = [e for e in evs if e.kind == 'call' and call_head(e) in ('numpy.percentile', 'numpy.nanpercentile')]
     ctx.floor(rule, 'percentile call', len(pct), 1)
     n = ('call', ('g', 'builtins.len'), (vals,), ())
@@ -218,7 +218,7 @@ def fluffiness_sign(ctx, rule='C04-R7'):
     q = 'ampycloud.fluffer.get_fluffiness'
     f = p.func(q, rule)
     ctx.saw(f)
-    rets = [e for e in fx.own_events(q) if e.kind == 'return']
+    rets = [e for e in fx.deep_events(q) if e.kind == 'return' and not e.ctx]
     ctx.floor(rule, 'returns of get_fluffiness', len(rets), 2)
     for e in rets:
         v = e.value
